@@ -199,7 +199,13 @@ class Optimizer(Identifiable, Runnable):
 
     def load_state_dict(self, state_dict: dict[str, Any]) -> None:
         self._epoch = state_dict["iteration"]
-        self.optimizer.load_state_dict(state_dict["optimizer"])
+        optimizer_state = dict(state_dict["optimizer"])
+        # JSON object keys are always strings: restore the integer parameter
+        # indices torch.optim.Optimizer.load_state_dict expects
+        optimizer_state["state"] = {
+            int(index): value for index, value in optimizer_state["state"].items()
+        }
+        self.optimizer.load_state_dict(optimizer_state)
         if self.scheduler is not None:
             self.scheduler.load_state_dict(state_dict["scheduler"])
 
